@@ -92,7 +92,6 @@ func genC16Plan(seed uint64, tier string) *C16Plan {
 		p.Opts.WhereForms = pickSome(g, []string{"pk", "in", "between", "and", "or", "paren", "nonpk"}, 1)
 	}
 	p.Opts.Params = g.Prob(0.8)
-	p.Opts.UniqueIndex = g.Prob(0.2)
 	nt := g.Range(1, 2)
 	for i := 0; i < nt; i++ {
 		p.Tables = append(p.Tables, genTable(g, fmt.Sprintf("t_%c", 'a'+i), p.Opts))
